@@ -21,85 +21,104 @@ ROOT = os.path.dirname(os.path.dirname(os.path.abspath(__file__)))
 REPO = os.environ.get('VERIF_REPO', '/repo')
 
 
-def drop_facts(work):
+import queue
+CACHES = queue.Queue()
+
+
+def worker_caches(n):
+    """each worker exports facts with its own cargo target directory (a copy of the warm one), so that the
+    compiler runs of different scratch copies do not wait for one another"""
+    base = os.environ.get('VERIF_CACHE', os.path.join(ROOT, '.cache'))
+    warm = os.path.join(base, 'target')
+    for i in range(n):
+        d = os.path.join(base, 'worker-%d' % i)
+        os.makedirs(d, exist_ok=True)
+        if not os.path.isdir(os.path.join(d, 'target')) and os.path.isdir(warm):
+            subprocess.run(['cp', '-a', warm, os.path.join(d, 'target')], check=False)
+        CACHES.put(d)
+
+
+def drop_facts(work, cache=None):
     """remove the exported facts of a scratch copy (check keys them by the copy's path)"""
     import hashlib
-    cache = os.environ.get('VERIF_CACHE', os.path.join(ROOT, '.cache'))
+    cache = cache or os.environ.get('VERIF_CACHE', os.path.join(ROOT, '.cache'))
     sfx = '-' + hashlib.sha1(work.encode()).hexdigest()[:8]
     for c in ('P', 'W'):
         shutil.rmtree(os.path.join(cache, 'facts-' + c + sfx), ignore_errors=True)
 
 
-def main():
-    props = sys.argv[1:]
-    patches = sorted(glob.glob(os.path.join(ROOT, 'selftest', 'mutants', '*.patch')))
-    if props:
-        patches = [p for p in patches if os.path.basename(p).split('-')[0] in props]
-    if not patches:
-        print('selftest: no mutants for %s' % (props or 'any property'))
-    scratch = tempfile.mkdtemp(prefix='verif-selftest-')
-    results = []
-    if os.environ.get('VERIF_ONLY_BENIGN'):
-        patches = []
+def run_one(job):
+    """job = (kind, patch, props): apply the patch to a private scratch copy, run the checks, classify"""
+    kind, p, pl = job
+    name = os.path.basename(p)[:-6]
+    cache = CACHES.get()
     try:
-        work = os.path.join(scratch, 'repo')
-        for p in patches:
-            name = os.path.basename(p)[:-6]
-            prop = name.split('-')[0]
-            expect = [l.split(':', 1)[1].strip() for l in open(p) if l.startswith('# expect:')]
-            shutil.rmtree(work, ignore_errors=True)
-            subprocess.run(['rsync', '-a', '--exclude', '/target', '--exclude', '/.git', REPO + '/', work + '/'], check=True)
-            subprocess.run(['git', 'init', '-q'], cwd=work)
-            ap = subprocess.run(['git', 'apply', '--whitespace=nowarn', p], cwd=work, stdout=subprocess.PIPE, stderr=subprocess.STDOUT, text=True)
-            if ap.returncode != 0:
-                results.append((name, 'PATCH-DOES-NOT-APPLY', ap.stdout.strip()[:200]))
-                continue
-            env = dict(os.environ, VERIF_REPO=work, VERIF_NO_EVIDENCE='1')
+        return _run_one(kind, p, pl, name, cache)
+    finally:
+        CACHES.put(cache)
+
+
+def _run_one(kind, p, pl, name, cache):
+    scratch = tempfile.mkdtemp(prefix='verif-selftest-')
+    work = os.path.join(scratch, 'repo')
+    out = []
+    try:
+        subprocess.run(['rsync', '-a', '--exclude', '/target', '--exclude', '/.git', REPO + '/', work + '/'], check=True)
+        subprocess.run(['git', 'init', '-q'], cwd=work)
+        ap = subprocess.run(['git', 'apply', '--whitespace=nowarn', p], cwd=work, stdout=subprocess.PIPE, stderr=subprocess.STDOUT, text=True)
+        if ap.returncode != 0:
+            return [(('benign:' if kind == 'benign' else '') + name, 'PATCH-DOES-NOT-APPLY', ap.stdout.strip()[:200])]
+        expect = [l.split(':', 1)[1].strip() for l in open(p) if l.startswith('# expect:')]
+        for prop in pl:
+            env = dict(os.environ, VERIF_REPO=work, VERIF_NO_EVIDENCE='1', VERIF_CACHE=cache)
             r = subprocess.run([os.path.join(ROOT, 'check'), prop, '--tier', 'quick'], env=env, cwd=ROOT,
                                stdout=subprocess.PIPE, stderr=subprocess.STDOUT, text=True)
             keys = re.findall(r'^(?:VIOLATED|UNPROVEN) (\S+)', r.stdout, re.M)
-            hit = [k for k in keys if any(e in k for e in expect)] if expect else keys
-            if r.returncode == 1 and hit:
-                results.append((name, 'KILLED', hit[0]))
-            elif r.returncode == 2:
-                results.append((name, 'BROKEN', r.stdout[-300:]))
+            if kind == 'mutant':
+                hit = [k for k in keys if any(e in k for e in expect)] if expect else keys
+                if r.returncode == 1 and hit:
+                    out.append((name, 'KILLED', hit[0]))
+                elif r.returncode == 2:
+                    out.append((name, 'BROKEN', r.stdout[-300:]))
+                else:
+                    out.append((name, 'SURVIVED', 'exit=%d keys=%s' % (r.returncode, keys[:4])))
             else:
-                results.append((name, 'SURVIVED', 'exit=%d keys=%s' % (r.returncode, keys[:4])))
+                label = 'benign:%s@%s' % (name, prop)
+                if r.returncode == 0:
+                    out.append((label, 'KILLED', 'silent (as required)'))
+                elif r.returncode == 2:
+                    out.append((label, 'BROKEN', r.stdout[-300:]))
+                else:
+                    out.append((label, 'FALSE-ALARM', str(keys[:3])))
     finally:
         shutil.rmtree(scratch, ignore_errors=True)
-        drop_facts(work)
-    # behaviour-preserving variants: the checks of the named properties must stay silent (exit 0)
-    benign = sorted(glob.glob(os.path.join(ROOT, 'selftest', 'benign', '*.patch')))
-    if props:
-        benign = [p for p in benign if set(os.path.basename(p).split('-')[0].split(',')) & set(props)]
-    if benign and not os.environ.get('VERIF_SKIP_BENIGN'):
-        scratch = tempfile.mkdtemp(prefix='verif-benign-')
-        try:
-            work = os.path.join(scratch, 'repo')
-            for p in benign:
-                name = os.path.basename(p)[:-6]
-                pl = [x for x in name.split('-')[0].split(',') if not props or x in props]
-                shutil.rmtree(work, ignore_errors=True)
-                subprocess.run(['rsync', '-a', '--exclude', '/target', '--exclude', '/.git', REPO + '/', work + '/'], check=True)
-                subprocess.run(['git', 'init', '-q'], cwd=work)
-                ap = subprocess.run(['git', 'apply', '--whitespace=nowarn', p], cwd=work, stdout=subprocess.PIPE, stderr=subprocess.STDOUT, text=True)
-                if ap.returncode != 0:
-                    results.append(('benign:' + name, 'PATCH-DOES-NOT-APPLY', ap.stdout.strip()[:200]))
-                    continue
-                for prop in pl:
-                    env = dict(os.environ, VERIF_REPO=work, VERIF_NO_EVIDENCE='1')
-                    r = subprocess.run([os.path.join(ROOT, 'check'), prop, '--tier', 'quick'], env=env, cwd=ROOT,
-                                       stdout=subprocess.PIPE, stderr=subprocess.STDOUT, text=True)
-                    keys = re.findall(r'^(?:VIOLATED|UNPROVEN) (\S+)', r.stdout, re.M)
-                    if r.returncode == 0:
-                        results.append(('benign:%s@%s' % (name, prop), 'KILLED', 'silent (as required)'))
-                    elif r.returncode == 2:
-                        results.append(('benign:%s@%s' % (name, prop), 'BROKEN', r.stdout[-300:]))
-                    else:
-                        results.append(('benign:%s@%s' % (name, prop), 'FALSE-ALARM', str(keys[:3])))
-        finally:
-            shutil.rmtree(scratch, ignore_errors=True)
-            drop_facts(work)
+        drop_facts(work, cache)
+    return out
+
+
+def main():
+    from concurrent.futures import ThreadPoolExecutor
+    props = sys.argv[1:]
+    jobs = []
+    if not os.environ.get('VERIF_ONLY_BENIGN'):
+        for p in sorted(glob.glob(os.path.join(ROOT, 'selftest', 'mutants', '*.patch'))):
+            prop = os.path.basename(p).split('-')[0]
+            if not props or prop in props:
+                jobs.append(('mutant', p, [prop]))
+    if not os.environ.get('VERIF_SKIP_BENIGN'):
+        # behaviour-preserving variants: the checks of the named properties must stay silent (exit 0)
+        for p in sorted(glob.glob(os.path.join(ROOT, 'selftest', 'benign', '*.patch'))):
+            pl = [x for x in os.path.basename(p).split('-')[0].split(',') if not props or x in props]
+            if pl:
+                jobs.append(('benign', p, pl))
+    if not jobs:
+        print('selftest: no mutants for %s' % (props or 'any property'))
+    workers = int(os.environ.get('VERIF_JOBS', '8'))
+    worker_caches(workers)
+    results = []
+    with ThreadPoolExecutor(max_workers=workers) as ex:
+        for out in ex.map(run_one, jobs):
+            results.extend(out)
     bad = [r for r in results if r[1] != 'KILLED']
     for r in results:
         print('selftest: %-40s %s  %s' % r)
